@@ -24,6 +24,10 @@ Transcribed from (snapshot ef0888e + fix commits):
   * udf.go           stopUDF = udf.Abort: the reader goroutine stops reading its input edge; ErrAborted from the
                      child edge only ends the FORWARDING goroutine (`fwdDead`), the node keeps running (kind `udf`)
   * kapacitor_loopback.go  Point → TaskMaster.WriteKapacitorPoint → the SAME write_points edge    (kind `loop`)
+  * barrier.go       idleBarrier / periodicBarrier: timer goroutines per group, stopped and joined by the deferred
+                     stopBarrierEmitter of runF; with delete(TRUE) emitBarrier collects a DeleteGroup message into
+                     the node's own input edge (kind `barrier`; barrier/delete messages are control messages and
+                     not counted)
 
 Abstractions (see checks/C07.json): messages are indistinguishable points (counts, FIFO edges); a pipeline is a
 CHAIN (node i feeds node i+1; forks/joins are not modelled); every node passes every point on; external calls
@@ -42,7 +46,7 @@ then forwards); `alert H` = alert node with one anonymous-topic handler whose qu
 its output); `fail K` = a node whose runF returns an error after forwarding `K` messages; `loop` =
 kapacitorLoopback. -/
 inductive Kind where
-  | pass | post | alert (H : Nat) | influx (B : Nat) | udf | fail (K : Nat) | loop
+  | pass | post | alert (H : Nat) | influx (B : Nat) | udf | fail (K : Nat) | loop | barrier (del : Bool)
   deriving DecidableEq, Repr, Inhabited
 
 /-- One node process together with ITS INPUT edge and its helper goroutine (writeBuffer.run / bufHandler.run). -/
@@ -64,11 +68,16 @@ structure Nd where
   fwdDead : Bool := false   -- udf: the forwarding goroutine got ErrAborted and returned; nothing reads udf.Out any more
   failed : Bool := false    -- runF is returning an error
   done : Bool := false      -- node goroutine finished (errCh written)
+  panicked : Bool := false  -- ghost: a helper goroutine of this node sent on a closed channel (the process dies)
   deriving DecidableEq, Repr, Inhabited
+
+def isBarrier : Kind → Bool
+  | .barrier _ => true
+  | _ => false
 
 /-- Does the node own a helper goroutine? -/
 def Kind.hasHelper : Kind → Bool
-  | .alert _ | .influx _ => true
+  | .alert _ | .influx _ | .barrier _ => true
   | _ => false
 
 /-- Actions of a node (and of its helper goroutine). -/
@@ -83,6 +92,7 @@ inductive NAct where
   | tick        -- influx: flush ticker fired with a non-empty buffer → writeAll
   | handle      -- alert: handler goroutine delivers one queued event
   | helperExit  -- influx: run sees `<-w.stopping`; alert: run sees the closed, drained queue
+  | timerFire   -- barrier with delete: a timer goroutine collects DeleteGroup into the node's own, already closed, input edge
   deriving DecidableEq, Repr, Inhabited
 
 /-- What a node action needs to know about the TaskMaster. -/
@@ -90,6 +100,7 @@ structure Env where
   cap : Nat
   hookLock : Bool        -- registerDeleteHookForTask takes tm.mu (code before repair 97356b1)
   alertLeak : Bool       -- a failed alert node returns without CloseTopic (code before repair d61e6a5)
+  barrierGuard : Bool    -- the barrier timers use Edge.CollectUnlessClosed (repair e30c0fb)
   tmLockFree : Bool      -- tm.mu is neither held for writing nor for reading
   ingestSpace : Bool     -- the write_points edge has a free slot
   writesClosed : Bool    -- TaskMaster.writesClosed
@@ -143,7 +154,7 @@ def nodeStep (env : Env) (a : NAct) (nd : Nd) (child : Option Nd) : Option NRes 
   | .take =>
     if !nd.done ∧ nd.hand = 0 ∧ nd.inq > 0 ∧ !nd.failed then
       match nd.kind with
-      | .pass | .influx _ | .loop => some ⟨{ nd with inq := nd.inq - 1, got := nd.got + 1, hand := 1 }, child, false⟩
+      | .pass | .influx _ | .loop | .barrier _ => some ⟨{ nd with inq := nd.inq - 1, got := nd.got + 1, hand := 1 }, child, false⟩
       | .post => some ⟨{ nd with inq := nd.inq - 1, got := nd.got + 1, hand := 1, deliv := nd.deliv + 1 }, child, false⟩
       | .udf => if nd.stopping then none else some ⟨{ nd with inq := nd.inq - 1, got := nd.got + 1, hand := 1, deliv := nd.deliv + 1 }, child, false⟩
       | .alert H =>
@@ -196,13 +207,23 @@ def nodeStep (env : Env) (a : NAct) (nd : Nd) (child : Option Nd) : Option NRes 
         some ⟨{ nd with stopping := true }, child, false⟩ else none
     | _ => none
   | .exit =>
+    -- (the barrier node's deferred stopBarrierEmitter stops and joins its timers on both paths)
     if nd.done then none
     else if nd.failed then
-      if exitFailedOk env nd then some ⟨{ nd with done := true, inAborted := true }, child.map closeIn, false⟩ else none
+      if exitFailedOk env nd then
+        some ⟨{ nd with done := true, inAborted := true, helperDone := nd.helperDone || isBarrier nd.kind }, child.map closeIn, false⟩ else none
     else if exitOk nd then
       -- (an aborted UDF whose forwarding goroutine is gone drops the message it still holds)
-      some ⟨{ nd with done := true, hand := 0, dropped := nd.dropped + nd.hand }, child.map closeIn, false⟩
+      some ⟨{ nd with done := true, hand := 0, dropped := nd.dropped + nd.hand, helperDone := nd.helperDone || isBarrier nd.kind }, child.map closeIn, false⟩
     else none
+  | .timerFire =>
+    -- emitBarrier: `n.in.Collect(DeleteGroup)` on the input edge the parent has closed = send on closed channel.
+    -- (with the guard the send returns ErrAborted and nothing changes; fires on an open edge only add control
+    -- messages, which the model does not count: both are stutter steps and omitted)
+    match nd.kind with
+    | .barrier true =>
+      if !nd.helperDone ∧ nd.got > 0 ∧ nd.inClosed ∧ !nd.panicked ∧ !env.barrierGuard then some ⟨{ nd with panicked := true }, child, false⟩ else none
+    | _ => none
 
 /-- Apply a node action at position `i` of the chain. Returns the new chain and whether a point was looped. -/
 def stepAt (env : Env) (a : NAct) : Nat → List Nd → Option (List Nd × Bool)
@@ -243,6 +264,7 @@ structure Cfg where
   viaClose : Bool        -- TaskMaster.Close (Drain first) instead of StopTask/DeleteTask
   hookLock : Bool        -- AlertNode registers its delete hook under tm.mu (true = code before repair 97356b1)
   alertLeak : Bool       -- a failed AlertNode does not close its topic (true = code before repair d61e6a5)
+  barrierGuard : Bool := true  -- barrier timers guard their send into the input edge (false = code before repair e30c0fb)
   deriving DecidableEq, Repr, Inhabited
 
 structure State where
@@ -291,7 +313,7 @@ def Ph.wantsLock : Ph → Bool
 def afterWait (n i : Nat) : Ph := if i + 1 < n then .stopF (i + 1) else .wgWait
 
 def env (cfg : Cfg) (s : State) : Env :=
-  { cap := cfg.cap, hookLock := cfg.hookLock, alertLeak := cfg.alertLeak, tmLockFree := !s.lockHeld ∧ !s.forkRL,
+  { cap := cfg.cap, hookLock := cfg.hookLock, alertLeak := cfg.alertLeak, barrierGuard := cfg.barrierGuard, tmLockFree := !s.lockHeld ∧ !s.forkRL,
     ingestSpace := s.ingest + s.ingestL < cfg.cap, writesClosed := s.ingestClosed }
 
 /-- The stopping goroutine. -/
@@ -391,7 +413,7 @@ def runStrict (cfg : Cfg) (s : State) : List Act → Option State
     | none => none
 
 /-- All candidate actions of a state (every action enabled in `s` is in this list). -/
-def nactAll : List NAct := [.init, .take, .put, .putErr, .enqDrop, .closeOut, .exit, .tick, .handle, .helperExit]
+def nactAll : List NAct := [.init, .take, .put, .putErr, .enqDrop, .closeOut, .exit, .tick, .handle, .helperExit, .timerFire]
 
 def allActs (s : State) : List Act :=
   [.write, .forkTake, .forkLock, .forkPut, .forkDrop, .forkExit, .stop, .thrExit] ++
